@@ -65,6 +65,50 @@ type PlanDoc struct {
 
 func sp(s string) *string { return &s }
 
+// Bodies of many megabytes (the "oversized" text class) are written to replay
+// files in run-length form: {"body":"oversized ","body_x":N} stands for the
+// prefix followed by N times 'x'.
+type cmdAlias Cmd
+
+type cmdWire struct {
+	cmdAlias
+	BodyX int `json:"body_x,omitempty"`
+}
+
+func (c Cmd) MarshalJSON() ([]byte, error) {
+	w := cmdWire{cmdAlias: cmdAlias(c)}
+	if c.Body != nil && len(*c.Body) > 1<<20 {
+		b := *c.Body
+		n := 0
+		for n < len(b) && b[len(b)-1-n] == 'x' {
+			n++
+		}
+		if n > 1<<20 {
+			head := b[:len(b)-n]
+			w.Body = &head
+			w.BodyX = n
+		}
+	}
+	return json.Marshal(w)
+}
+
+func (c *Cmd) UnmarshalJSON(data []byte) error {
+	var w cmdWire
+	if err := json.Unmarshal(data, &w); err != nil {
+		return err
+	}
+	*c = Cmd(w.cmdAlias)
+	if w.BodyX > 0 {
+		head := ""
+		if c.Body != nil {
+			head = *c.Body
+		}
+		full := head + strings.Repeat("x", w.BodyX)
+		c.Body = &full
+	}
+	return nil
+}
+
 func (c Cmd) String() string {
 	b, _ := json.Marshal(c)
 	return string(b)
